@@ -73,6 +73,10 @@ def canonical(root):
         i += 1
         if isinstance(o, BaseObject):
             rec = [(k, val(v)) for k, v in vars(o).items() if k not in SKIP_ATTRS]
+            for klass in type(o).__mro__:
+                for slot in getattr(klass, "__slots__", ()) or ():
+                    if slot not in ("__dict__", "__weakref__"):
+                        rec.append(("slot:" + slot, val(getattr(o, slot)) if hasattr(o, slot) else ("unset",)))
             form.append((_qual(type(o)), tuple(rec)))
         elif isinstance(o, list):
             form.append(("list", tuple(val(y) for y in o)))
